@@ -374,6 +374,9 @@ func c03Marshal(p rtmp.Packet) (out []byte, class string) {
 		out = b
 		return "ok"
 	})
+	if class == "ok" {
+		keep("packet "+c03Kind(p), out)
+	}
 	return
 }
 
@@ -829,6 +832,7 @@ func (e *c03End) remaining() int {
 
 func c03(c *h.Ctx) {
 	r := c.R
+	defer keptCheck(c, "marshal.bytes_not_aliased")
 	// 0. regression: F20 — a call packet that ends after the transaction id (no command object) made
 	// publish / play / createStream-response decoding slice out of range.
 	for _, x := range []struct{ kind, hx string }{
